@@ -241,6 +241,8 @@ def main(argv=None):
     wall = time.time() - t0
     space = mod.space(tier) if hasattr(mod, 'space') else {}
     states = tot['states'] + int(space.get('states', 0))
+    if getattr(mod, 'STATES_FROM_OUTCOMES', False):
+        states = len(outcomes)
     transitions = tot['transitions'] + int(space.get('transitions', 0))
     caps = list(space.get('caps_hit', []))
     if len(outcomes) >= 2_000_000:
